@@ -324,7 +324,14 @@ impl Ctx {
                     let outs = ex::exec_case(&c.bytes, c.mask, c.fmt == Fmt::Rten, env, Some(region), &xo);
                     region.push_record(&Json::Array(outs.iter().map(|o| o.to_json()).collect()).to_string());
                 }
+                if std::env::var_os("LF_DEBUG").is_some() {
+                    use std::sync::atomic::Ordering::Relaxed;
+                    eprintln!("child times us: put {} load {} examine {} drop {}", ex::T_PUT.load(Relaxed), ex::T_LOAD.load(Relaxed), ex::T_EXAMINE.load(Relaxed), ex::T_DROP.load(Relaxed));
+                }
             });
+            if std::env::var_os("LF_DEBUG").is_some() {
+                eprintln!("child ended {:?}; {} records; stderr tail: {}", batch.end, batch.records.len(), batch.stderr.lines().rev().take(3).collect::<Vec<_>>().join(" | "));
+            }
             allocmon::set_shared(std::ptr::null_mut());
             self.children.set(self.children.get() + 1);
             let n_done = batch.records.len();
@@ -805,7 +812,9 @@ impl<'a> Runner<'a> {
         let unjudged_run_death = oc.crash.as_ref().map(|c| matches!(c.stage, ex::ST_RUN | ex::ST_CONST_OUT) && c.malformed_seen == 0).unwrap_or(false);
         if let (Some(c), false) = (&oc.crash, unjudged_run_death) {
             let confirm_alarm = if c.class == "timeout" { self.ctx.alarm_s * 4 } else { self.ctx.alarm_s };
+            let tc = std::time::Instant::now();
             let again = self.ctx.run_one(case, confirm_alarm, false, false);
+            self.rep.add("time_us.confirming_child_deaths", tc.elapsed().as_micros() as u64);
             match (&again.crash, c) {
                 (Some(c2), c1) if c2.class == c1.class && c2.stage == c1.stage => {
                     self.rep.count("child_death_confirmed_alone");
@@ -887,7 +896,7 @@ impl<'a> Runner<'a> {
                 None => (case.bytes.clone(), self.reproduces(case, &case.bytes, f, true).unwrap_or_else(|| f.clone())),
             }
         };
-        self.rep.add("time_us.shrinking", t0.elapsed().as_micros() as u64);
+        self.rep.add("time_us.shrinking_and_resolving", t0.elapsed().as_micros() as u64);
         self.rep.add("shrink_executions", execs as u64);
         // What happens when the malformed constant is actually used.
         let mut consequence = Json::Null;
@@ -1051,6 +1060,7 @@ pub fn run(args: &Args) {
         seed_cases.push((Case { bytes: s.bytes.clone(), fmt: Fmt::Rten, origin: Fmt::Rten, class: "seed".into(), seed_name: s.name.clone(), structured: true, mask: FULL_MASK, run_model: true }, true));
     }
     let mut selftest: Vec<String> = Vec::new();
+    let t_seed = std::time::Instant::now();
     {
         let cases: Vec<Case> = seed_cases.iter().map(|c| c.0.clone()).collect();
         for chunk in cases.chunks(batch_size).zip(seed_cases.chunks(batch_size)) {
@@ -1073,6 +1083,7 @@ pub fn run(args: &Args) {
             }
         }
     }
+    runner.rep.add("time_us.seed_phase(incl. its write-ups)", t_seed.elapsed().as_micros() as u64);
     if !selftest.is_empty() {
         runner.rep.inconclusive = Some(format!("valid seed models no longer load cleanly through every entry point (harness out of date?): {}", selftest.join(" | ")));
     }
@@ -1083,6 +1094,7 @@ pub fn run(args: &Args) {
     let mut run_disabled = false;
     let mut run_stage_deaths = 0u64;
     while done < budget {
+        let tgen = std::time::Instant::now();
         let mut batch: Vec<Case> = Vec::with_capacity(batch_size);
         let mut attempts = 0;
         while batch.len() < batch_size && (done + batch.len() as u64) < budget && attempts < batch_size * 20 {
@@ -1106,8 +1118,10 @@ pub fn run(args: &Args) {
         if batch.is_empty() {
             break;
         }
+        runner.rep.add("time_us.generating_mutants", tgen.elapsed().as_micros() as u64);
         let tb = std::time::Instant::now();
         let ocs = runner.ctx.run_batch(&batch, ctx.alarm_s, false, false);
+        runner.rep.add("time_us.mutant_batches", tb.elapsed().as_micros() as u64);
         if std::env::var_os("LF_DEBUG").is_some() {
             let slow = batch.iter().zip(&ocs).map(|(c, o)| (o.outs.iter().map(|e| e.micros).sum::<u64>(), c.class.clone(), c.seed_name.clone(), c.bytes.len())).max();
             eprintln!("batch of {} in {:?}; done {}; slowest load {:?}", batch.len(), tb.elapsed(), done, slow);
